@@ -495,6 +495,27 @@ def cheap_graph(g, res):
     res.count("cheap_graphs")
 
 
+def live_graph(r, c, bits_seq, res):
+    """ONE live maze object whose connection array is rewritten in place to each structure of bits_seq in turn; after every
+    rewrite the whole cheap query battery must describe the structure the maze has NOW (whatever it answered before)"""
+    g = G(r, c, bits_seq[0])
+    live = g.m
+    cheap_graph(g, res)
+    for bits in bits_seq[1:]:
+        live.connection_list[...] = R.graph_from_bits(r, c, bits)
+        g2 = G(r, c, bits)
+        g2.m = live  # reference fields of the new structure, the SAME library object
+        sub = type(res)()
+        cheap_graph(g2, sub)
+        res.evaluations += sub.evaluations
+        res.count("live_graph_rewrites")
+        for f in sub.fails:
+            res.fail(f["key"] + "|after_in_place_rewrite", f"after rewriting the connection array of one live maze in place through {[hex(b) for b in bits_seq[:bits_seq.index(bits) + 1]]}: "
+                     + f["what"], dict(kind="live_graph", r=r, c=c, bits_seq=[str(b) for b in bits_seq[:bits_seq.index(bits) + 1]]))
+        if sub.fails:
+            return
+
+
 # ------------------------------------------------------------------ structured larger mazes
 def structured_bits(r, c, name):
     edges = R.lattice_edges(r, c)
@@ -699,7 +720,21 @@ def task(t, res):
         return
     with owned_rng() as ch:
         u0 = ch.unowned_draws
-        if kind == "mixed":
+        if kind == "live":
+            r, c = t["shape"]
+            n = R.n_graphs(r, c)
+            # every ordered pair of structures (small grids) / a stride of pairs and triples (3x3)
+            if n <= 128:
+                for a in range(n):
+                    for b in range(t["start"], n, t["stride"]):
+                        if a != b:
+                            live_graph(r, c, [a, b], res)
+            else:
+                trees = R.trees(r, c)
+                seqs = [[trees[i], trees[(i * 7 + 3) % len(trees)], (n - 1) ^ (1 << (i % 12)), trees[i]] for i in range(t["start"], len(trees), t["stride"])]
+                for q in seqs:
+                    live_graph(r, c, q, res)
+        elif kind == "mixed":
             # same-cell-count shapes interleaved in one fresh interpreter (arrays with identical bytes, different shapes)
             per = [[(r, c, b) for b in range(R.n_graphs(r, c))] for (r, c) in t["group"]]
             seq = [x for k in range(max(map(len, per))) for x in (p[k] for p in per if k < len(p))]
@@ -761,11 +796,18 @@ def run(ctx):
     ctx.pmap(MOD, "task", tasks)
     groups = [[(2, 3), (3, 2)], [(1, 4), (4, 1), (2, 2)], [(1, 3), (3, 1)]]
     ctx.pmap(MOD, "task", [dict(kind="mixed", group=g, order=o, tier=ctx.tier) for g in groups for o in ("interleaved", "reversed")], fresh=True)
+    live = [dict(kind="live", shape=(2, 2), start=0, stride=1, tier=ctx.tier)]
+    live += [dict(kind="live", shape=sh, start=s0, stride=16 if quick else 4, tier=ctx.tier) for sh in ((2, 3), (3, 2)) for s0 in range(16 if quick else 4)]
+    live += [dict(kind="live", shape=(3, 3), start=s0, stride=8, tier=ctx.tier) for s0 in range(8)]
+    ctx.pmap(MOD, "task", live)
     full_shapes = SMALL + [(3, 3)] + ([] if quick else [(2, 4), (4, 2)])
     ctx.coverage.update(
         graph_spaces_complete={f"{r}x{c}": R.n_graphs(r, c) for r, c in full_shapes},
         cheap_query_spaces_complete={} if quick else {"3x4": R.n_graphs(3, 4), "4x3": R.n_graphs(4, 3)},
         structured=[f"{r}x{c}" for r, c in struct_shapes], structured_patterns=STRUCT_NAMES,
+        live_maze_rewrites=dict(what="one live maze object, connection array rewritten in place, cheap query battery after every rewrite",
+                                spaces={"2x2": "all ordered pairs of the 16 structures", "2x3/3x2": "all 128 x every 16th (quick) / 4th structure", "3x3": "192 four-step tree/cyclic sequences"},
+                                rewrites=ctx.res.counters.get("live_graph_rewrites", 0)),
         mixed_sequences=dict(groups=[[list(x) for x in g] for g in groups], orders=["interleaved", "reversed"], graphs=ctx.res.counters.get("mixed_sequence_graphs", 0)),
         path_candidates="every simple path of the full lattice with <= 4 cells (valid or through walls), every valid simple path <= 4 cells "
                         "with a backtracking step appended / one cell moved off the grid (-1, r, c), all ordered cell pairs as 2-cell paths, "
@@ -797,6 +839,10 @@ def _t(x):
 
 def replay(d, res):
     _setup()
+    if d["kind"] == "live_graph":
+        with owned_rng():
+            live_graph(d["r"], d["c"], [int(b) for b in d["bits_seq"]], res)
+        return
     if d["kind"] == "shape":
         chk_shape_level(res, d["what"], n=d.get("n"), r=d.get("r"), c=d.get("c"))
         return
